@@ -167,6 +167,20 @@ def run(ctx):
     check_order(ck, lambda t: callee_name(t) == sync.id, lambda t: callee_name(t) == wcm.id,
                 "WalManager::checkpoint#sync-before-metadata",
                 "checkpoint metadata is written without a dominating log sync: the metadata can point past what is durable")
+    # the checkpoint metadata names the log file that holds the checkpoint record (recovery skips everything below it)
+    ckx = FlowCx(P, ck)
+    for (bi, si, rv, ln) in find_aggregates(ck, "CheckpointMetadata"):
+        for fname, op in zip(rv[5], rv[4]):
+            fn_ = fname.strip('"')
+            tg = ckx.tags(op)
+            if fn_ == "log_sequence":
+                ok = "cell:WalManager.current_sequence" in tg and not any(x.startswith("bin:") for x in tg)
+                ctx.ob("R3", "WalManager::checkpoint#log_sequence", ok,
+                       what="CheckpointMetadata.log_sequence is not the (unmodified) current log sequence: recovery starts at the wrong "
+                            "file and skips records written after the checkpoint", where=ck.loc(ln))
+            elif fn_ == "epoch":
+                ctx.ob("R3", "WalManager::checkpoint#epoch", "param:3" in tg,
+                       what="CheckpointMetadata.epoch is not the epoch passed to checkpoint()", where=ck.loc(ln))
     ctx.ob("R3", "WalManager::sync#fsync", any(_is(callee_name(t), SYNC_ALL) for bi, t in sync.calls()),
            what="WalManager::sync does not fsync the active log", where=sync.loc())
     # async siblings
@@ -220,6 +234,27 @@ def run(ctx):
     ctx.ob("R5", "recover_internal#bad-record-ends-replay", not bad,
            what="after a record fails its checksum recover_internal can read further records (the next file): the recovered state is "
                 "not a prefix of the issued operations", where=ri.loc(rcalls[0][1]["line"]))
+
+    # a log file is skipped only if its sequence is strictly below the checkpoint's (the checkpoint's own file also holds
+    # the records written after the checkpoint)
+    skipops = []
+    for bi, b in enumerate(ri.blocks):
+        if b["cl"]:
+            continue
+        for st in b["s"]:
+            rv = st[1]
+            if rv[0] == "bin" and rv[1] in ("Lt", "Le", "Gt", "Ge", "Eq", "Ne"):
+                a_, b_ = ix.tags(rv[2]), ix.tags(rv[3])
+                ca, cb = "cell:CheckpointMetadata.log_sequence" in a_, "cell:CheckpointMetadata.log_sequence" in b_
+                fa_, fb_ = any(x.endswith("sequence_from_path") for x in a_), any(x.endswith("sequence_from_path") for x in b_)
+                if cb and fa_ and not ca:
+                    skipops.append(rv[1])
+                elif ca and fb_ and not cb:
+                    skipops.append({"Lt": "Gt", "Gt": "Lt", "Le": "Ge", "Ge": "Le"}.get(rv[1], rv[1]))
+    ctx.floor("R5", len(skipops), 1, "checkpoint skip test in recover_internal")
+    ctx.ob("R5", "recover_internal#skip-strictly-below-checkpoint", all(o == "Lt" for o in skipops),
+           what="recover_internal skips log files with `sequence %s checkpoint sequence`; only files strictly below the checkpoint's "
+                "sequence may be skipped" % skipops, where=ri.loc())
 
     # log files are replayed in sequence order
     glf = P.fn("WalRecovery::get_log_files")
